@@ -4,6 +4,7 @@ package c06
 // few hand-written histories that are always expected to hold.
 
 import (
+	"fmt"
 	"os"
 	"path/filepath"
 	"testing"
@@ -171,5 +172,48 @@ func TestRegression_Example(t *testing.T) {
 	g2, _ = fq.GetOrCreateConsumerGroup("2")
 	if s := g2.Consume(); s != 5 {
 		t.Fatalf("Consume after reopen = %d, want 5", s)
+	}
+}
+
+// Found by TestGroupPageFaults (history shrunk to: createGroup 1; createGroup 2 fails; retry).
+// The creation of the meta page of a brand-new group fails after the file 0.bat exists - ftruncate
+// fails with ENOSPC (an empty file stays behind) or mmap fails with ENOMEM (a zero file of the page
+// size stays behind), pkg/queue/page/mpage.go + pkg/fileutil/mmap.go. GetOrCreateConsumerGroup
+// returns the error. pkg/queue/consumer_group.go NewConsumerGroup decides "the group has persisted
+// positions" by the existence of that file, so the retry reads the zero page as consumed=0 / ack=0:
+// the new group does not start at -1/-1 (nor at the queue ack): on an empty queue consumed 0 >
+// appended -1, and in any case message 0 is never handed to that replica although it counts as
+// acknowledged by it. Proposed repair: proposed_fix_new_group_meta_residue.diff.
+func TestRegression_NewGroupAfterFailedMetaPageCreation(t *testing.T) {
+	for _, residue := range []string{"none", "empty-file", "full-file"} {
+		installPages()
+		_, fq := regressionQueue(t)
+		if _, err := fq.GetOrCreateConsumerGroup("1"); err != nil {
+			t.Fatal(err)
+		}
+		pfault.arm("2", 1, residue, "")
+		_, err := fq.GetOrCreateConsumerGroup("2")
+		fired := pfault.disarm()
+		if err == nil || len(fired) != 1 {
+			t.Fatalf("residue %s: harness: expected one injected fault and an error, got err=%v fired=%v", residue, err, fired)
+		}
+		g2, err := fq.GetOrCreateConsumerGroup("2")
+		if err != nil {
+			t.Fatalf("residue %s: retry fails without a fault: %v", residue, err)
+		}
+		c, a, app, qa := g2.ConsumedSeq(), g2.AcknowledgedSeq(), fq.Queue().AppendedSeq(), fq.Queue().AcknowledgedSeq()
+		fq.Close()
+		uninstallPages()
+		if c == a && (c == -1 || c == qa) && c <= app {
+			continue
+		}
+		what := fmt.Sprintf("creation of the meta page of new group 2 failed once (%v), the retry gives a group at consumed=%d ack=%d on a queue with appended=%d queue ack=%d; a new group starts at -1/-1 (or at the queue ack)",
+			fired, c, a, app, qa)
+		if ev.Known(sigGroupMetaResidue) {
+			ev.KnownFinding("C06", sigGroupMetaResidue+": "+what)
+			t.Logf("listed in known_findings.json: %s", what)
+			continue
+		}
+		t.Fatalf("%s", what)
 	}
 }
